@@ -417,6 +417,7 @@ def run(R):
     r10(R)
     r11(R)
     r12(R)
+    r13(R)
 
 
 def certify(R, prog, bodies, rule):
@@ -1351,3 +1352,43 @@ def r12(R):
     ok = bool(classes & digits)
     R.ob("C16-R12", "digits-in-subtags", "the language-tag scanner accepts digits after the primary subtag (character classes used: %s)" % sorted(classes), ok, where=b.where(ats[0].ln),
          detail=None if ok else "`SELECT .. { ?s ?p \"hola\"@es-419 }` is rejected although `@es-MX` parses")
+
+
+def r13(R):
+    """the branch list of a UNION is complete"""
+    prog = R.prog
+    GGP = "shared::query::GroupGraphPattern"
+    R.rule("C16-R13", "every UNION branch reaches the tree: the list of alternatives that becomes GroupGraphPattern::Union - in the parser that builds the "
+                      "node, or in a helper that is handed the Union constructor - is not filtered (`retain`, `dedup*`, `truncate`, `drain`, a `filter` "
+                      "adaptor). The empty group `{}` is the unit of a join but a *solution* of a union: `{ {} UNION { ?s ?p ?o } }` has one more row "
+                      "than `{ ?s ?p ?o }`; a collapse that drops Unit members before it wraps them changes the query")
+    builders = {}
+    for b in prog.bodies.values():
+        if b.crate != "kolibrie" or "::tests::" in b.key or not b.file.endswith("parser.rs"):
+            continue
+        for bb, i, pl, rv, st in b.assigns():
+            if rv["rv"] == "aggregate" and rv.get("adt") == GGP and rv.get("variant") == "Union":
+                builders.setdefault(b.root if b.is_closure else b.key, "builds the node")
+            if rv["rv"] == "cast" and (rv["op"].get("fn") or "").startswith(GGP + "::Union"):
+                # the constructor as a function value: whoever receives it builds the node
+                for c in b.calls():
+                    if c.key in prog.bodies and any(F.op_place(a) and b.alias_root(a) == pl["l"] or F.op_local(a) == pl["l"] for a in c.args):
+                        builders.setdefault(c.key, "is handed the Union constructor by %s" % b.short)
+        for c in b.calls():
+            if any(a.get("k") == "const" and (a.get("fn") or "").startswith(GGP + "::Union") for a in c.args) and c.key in prog.bodies:
+                builders.setdefault(c.key, "is handed the Union constructor by %s" % b.short)
+    R.floor("C16-R13", "functions that build a Union node", len(builders), 1)
+    FILTERS = ("retain", "retain_mut", "dedup", "dedup_by", "dedup_by_key", "truncate", "drain", "filter", "filter_map", "skip", "skip_while", "take", "take_while", "step_by")
+    for k, why in sorted(builders.items()):
+        root = prog.bodies.get(k)
+        if root is None:
+            continue
+        R.saw(root)
+        bad = []
+        for x in prog.family(k):
+            for c in x.calls():
+                if c.name() in FILTERS and c.args and F.op_place(c.args[0]) and "GroupGraphPattern" in x.local_ty(F.op_place(c.args[0])["l"]):
+                    bad.append((x, c))
+        R.ob("C16-R13", "complete:" + root.name, "%s (%s) hands every collected member on (filtering calls on pattern lists: %s)" % (root.name, why, sorted({c.name() for x, c in bad})),
+             not bad, where=(bad[0][0].where(bad[0][1].ln) if bad else root.where()),
+             detail=None if not bad else "an empty `{}` written as a UNION branch disappears from the tree: the query is accepted and answers with fewer rows")
